@@ -251,8 +251,6 @@ def run_gen(ctx, d, module, what, timeout, simulate=None, workers=4):
                  extra=extra)
     with _lock:
         vp.record_tlc(ctx, what, res, count=False)
-    if res.timed_out and not simulate:
-        raise vp.ToolError(f"TLC timed out: {what}")
     if res.error and "Parsing" in res.error:
         raise vp.ToolError(f"TLC failed on {what}: {res.output[-3000:]}")
     wit, beh = [], []
@@ -260,6 +258,12 @@ def run_gen(ctx, d, module, what, timeout, simulate=None, workers=4):
         wit.append((m.group(1), json.loads(_unescape(m.group(2)))))
     for m in _re_beh.finditer(res.output):
         beh.append(json.loads(_unescape(m.group(1))))
+    if res.timed_out and not simulate:
+        if not wit or module.count("Formula"):
+            raise vp.ToolError(f"TLC timed out: {what}")
+        # breadth-first witness search stopped by the time limit: the witnesses found so far are used
+        with _lock:
+            ctx.note(f"{what}: witness search stopped by the time limit with {len(wit)} witnesses")
     return res, wit, beh
 
 
@@ -540,18 +544,14 @@ def _limits_and_chunks(ctx, quick, want):
         tag = "req-oom-undelivered-pending" if f == "FormulaReq" else "resp-oom-stale-responses"
         ctx.coverage["formula_refutations"][f"{f} {key(c)}"] = "reproduced" if oom else "model only"
         if oom:
+            # the trace specification decides: the OutOfMemory is accepted only in the known shape (tag in kd);
+            # report_verdict turns every tag of this property into a (known) finding and anything else into a
+            # violation
             v = validate(ctx, c, trace, f"{want}cex{n}")
-            if v.accepted and tag in v.kd:
-                report(ctx, vp.Violation(
-                    f"{f}: TLC refutes 'no OutOfMemory inside the limits' for {key(c)} with the chunk counts read from the "
-                    f"code ({c['nreq']} request / {c['nresp']} response chunks) and the counterexample reproduces on the "
-                    f"real code: {fmt_op(oom[0])}",
-                    replay={"config": driver_cfg(c), "invariant": f, "program": steps,
-                            "history": [fmt_op(r) for r in recs if r.get("k") == "op"]},
-                    signature=KD_SIGNATURE[tag]))
-                ctx.traces_validated += 1
-            else:
-                report_verdict(ctx, v, f"{want} counterexample replay", kd_filter)
+            if v.accepted and tag not in v.kd:
+                raise vp.ToolError(f"replay of {f} ended in OutOfMemory but the trace specification did not tag it")
+            report_verdict(ctx, v, f"{want} {f} refuted by TLC with the chunk counts of the code "
+                                   f"({c['nreq']}/{c['nresp']}), counterexample replayed on the real code", kd_filter)
         else:
             ctx.note(f"{f} refuted in the model for {key(c)} but the replay did not end in OutOfMemory")
     # ---- 3. random histories with loan-to-exhaustion probes, validated by the trace specification --------
